@@ -174,28 +174,49 @@ theorem Quat.cauchy_schwarz (u v : Quat ℝ) : (Quat.dot u v) ^ 2 ≤ u.magnitud
   nlinarith [sq_nonneg (u.s * v.v.x - u.v.x * v.s), sq_nonneg (u.s * v.v.y - u.v.y * v.s),
     sq_nonneg (u.s * v.v.z - u.v.z * v.s), sq_nonneg (u.v.x * v.v.y - u.v.y * v.v.x),
     sq_nonneg (u.v.x * v.v.z - u.v.z * v.v.x), sq_nonneg (u.v.y * v.v.z - u.v.z * v.v.y)]
+/-- over the reals the clamp before `acos` never acts: `|u·v| ≤ |u||v|` -/
+theorem clampUnit_eq (d a b : ℝ) (ha : 0 < a) (hb : 0 < b) (h : d ^ 2 ≤ a * b) :
+    clampUnit (d / (Real.sqrt a * Real.sqrt b)) = d / (Real.sqrt a * Real.sqrt b) := by
+  obtain ⟨h1, h2⟩ := abs_div_le_one d a b ha hb h
+  unfold clampUnit
+  rw [if_neg (not_lt.mpr h2), if_neg (not_lt.mpr h1)]
 /-- default (arccos) angle: `|u||v| cos(angle) = u·v`, in `[0, π]`, symmetric -/
 theorem V4.angle_spec (u v : V4 ℝ) (hu : 0 < u.magnitude2) (hv : 0 < v.magnitude2) :
     u.magnitude * v.magnitude * Real.cos (V4.angle u v) = V4.dot u v ∧
     0 ≤ V4.angle u v ∧ V4.angle u v ≤ π ∧ V4.angle u v = V4.angle v u := by
   obtain ⟨h1, h2, h3⟩ := acos_angle (V4.dot u v) _ _ hu hv (V4.cauchy_schwarz u v)
+  have hcl := clampUnit_eq (V4.dot u v) _ _ hu hv (V4.cauchy_schwarz u v)
+  have ha : V4.angle u v = Real.arccos (V4.dot u v / (Real.sqrt u.magnitude2 * Real.sqrt v.magnitude2)) := by
+    simp only [V4.angle, V4.magnitude, transc_sqrt, transc_acos, hcl]
+  rw [ha]
   refine ⟨by simpa using h1, by simpa using h2, by simpa using h3, ?_⟩
   have e : V4.dot u v = V4.dot v u := by simp; ring
+  rw [← ha]
   simp only [V4.angle, e, mul_comm]
 theorem Quat.angle_spec (u v : Quat ℝ) (hu : 0 < u.magnitude2) (hv : 0 < v.magnitude2) :
     u.magnitude * v.magnitude * Real.cos (Quat.angle u v) = Quat.dot u v ∧
     0 ≤ Quat.angle u v ∧ Quat.angle u v ≤ π ∧ Quat.angle u v = Quat.angle v u := by
   obtain ⟨h1, h2, h3⟩ := acos_angle (Quat.dot u v) _ _ hu hv (Quat.cauchy_schwarz u v)
+  have hcl := clampUnit_eq (Quat.dot u v) _ _ hu hv (Quat.cauchy_schwarz u v)
+  have ha : Quat.angle u v = Real.arccos (Quat.dot u v / (Real.sqrt u.magnitude2 * Real.sqrt v.magnitude2)) := by
+    simp only [Quat.angle, Quat.magnitude, transc_sqrt, transc_acos, hcl]
+  rw [ha]
   refine ⟨by simpa using h1, by simpa using h2, by simpa using h3, ?_⟩
   have e : Quat.dot u v = Quat.dot v u := by simp; ring
+  rw [← ha]
   simp only [Quat.angle, e, mul_comm]
 theorem V1.angle_spec (u v : V1 ℝ) (hu : 0 < u.magnitude2) (hv : 0 < v.magnitude2) :
     u.magnitude * v.magnitude * Real.cos (V1.angle u v) = V1.dot u v ∧
     0 ≤ V1.angle u v ∧ V1.angle u v ≤ π ∧ V1.angle u v = V1.angle v u := by
   have cs : (V1.dot u v) ^ 2 ≤ u.magnitude2 * v.magnitude2 := by simp; nlinarith
   obtain ⟨h1, h2, h3⟩ := acos_angle (V1.dot u v) _ _ hu hv cs
+  have hcl := clampUnit_eq (V1.dot u v) _ _ hu hv cs
+  have ha : V1.angle u v = Real.arccos (V1.dot u v / (Real.sqrt u.magnitude2 * Real.sqrt v.magnitude2)) := by
+    simp only [V1.angle, V1.magnitude, transc_sqrt, transc_acos, hcl]
+  rw [ha]
   refine ⟨by simpa using h1, by simpa using h2, by simpa using h3, ?_⟩
   have e : V1.dot u v = V1.dot v u := by simp; ring
+  rw [← ha]
   simp only [V1.angle, e, mul_comm]
 
 /-- 3-D: `atan2(|u × v|, u·v)`; same defining property, range `[0, π]`, symmetric -/
